@@ -53,6 +53,10 @@ Base == [query |-> "Query", mutation |-> "", subscription |-> "",
 Variants(n) == {Named(n), NN(Named(n)), ListOf(Named(n)), ListOf(NN(Named(n))), NN(ListOf(Named(n))), NN(ListOf(NN(Named(n))))}
 RECURSIVE Inner(_)
 Inner(t) == IF t.k = "named" THEN t.n ELSE Inner(t.of)
+\* other named types a scalar position may be re-typed to (always a change of the named type: never safe in either direction,
+\* whatever literal coercion would accept - a variable of the old type no longer fits)
+Cross(n) == IF n = "Int" THEN {Named("Float"), Named("ID"), NN(Named("Float")), ListOf(Named("Float"))}
+            ELSE IF n = "String" THEN {Named("ID")} ELSE {}
 \* soundness predicates
 RECURSIVE OutOk(_, _)
 OutOk(o, n) == IF n.k = "nn" THEN (IF o.k = "nn" THEN OutOk(o.of, n.of) ELSE OutOk(o, n.of))
@@ -77,7 +81,7 @@ Edits(s) ==
             new |-> WithType(s, i, [s.types[i] EXCEPT !.fields[j].type = v]),
             from |-> s.types[i].fields[j].type, to |-> v,
             expect |-> {"FieldChangedType"}, silentOk |-> OutOk(s.types[i].fields[j].type, v), breaking |-> ~OutOk(s.types[i].fields[j].type, v)]
-          : v \in Variants(Inner(s.types[i].fields[j].type)) \ {s.types[i].fields[j].type}}
+          : v \in (Variants(Inner(s.types[i].fields[j].type)) \cup (IF j = 1 THEN Cross(Inner(s.types[i].fields[j].type)) ELSE {})) \ {s.types[i].fields[j].type}}
         : j \in 1..Len(s.types[i].fields)} : i \in {TIdx(s, "Query")}}
   \cup
   \* retype an argument
@@ -85,7 +89,7 @@ Edits(s) ==
             new |-> WithType(s, i, [s.types[i] EXCEPT !.fields[2].args[a].type = v]),
             from |-> s.types[i].fields[2].args[a].type, to |-> v,
             expect |-> {"FieldArgumentChangedType"}, silentOk |-> InOk(s.types[i].fields[2].args[a].type, v), breaking |-> ~InOk(s.types[i].fields[2].args[a].type, v)]
-          : v \in Variants(Inner(s.types[i].fields[2].args[a].type)) \ {s.types[i].fields[2].args[a].type}}
+          : v \in (Variants(Inner(s.types[i].fields[2].args[a].type)) \cup Cross(Inner(s.types[i].fields[2].args[a].type))) \ {s.types[i].fields[2].args[a].type}}
         : a \in 1..2, i \in {TIdx(s, "Query")}}
   \cup
   \* retype an input field
@@ -93,7 +97,7 @@ Edits(s) ==
             new |-> WithType(s, i, [s.types[i] EXCEPT !.fields[j].type = v]),
             from |-> s.types[i].fields[j].type, to |-> v,
             expect |-> {"InputFieldChangedType"}, silentOk |-> InOk(s.types[i].fields[j].type, v), breaking |-> ~InOk(s.types[i].fields[j].type, v)]
-          : v \in Variants("Int") \ {s.types[i].fields[j].type}}
+          : v \in (Variants("Int") \cup (IF j = 1 THEN Cross("Int") ELSE {})) \ {s.types[i].fields[j].type}}
         : j \in 1..2, i \in {TIdx(s, "In")}}
   \cup
   \* remove / add field, argument, enum value, union member, interface implementation, type
@@ -156,6 +160,16 @@ Edits(s) ==
      expect |-> {"DirectiveLocationAdded"}, silentOk |-> FALSE, breaking |-> FALSE],
     [kind |-> "retype-directive-arg", el |-> "n", owner |-> "tag", new |-> [s EXCEPT !.directives[1].args[1].type = NN(Named("Int"))],
      expect |-> {"DirectiveArgumentChangedType"}, silentOk |-> FALSE, breaking |-> TRUE],
+    \* a REQUIRED input position loses its default: requests that relied on the default are no longer valid
+    [kind |-> "remove-default-required-input", el |-> "g", owner |-> "In", new |-> WithType(s, TIdx(s, "In"), [s.types[TIdx(s, "In")] EXCEPT !.fields[2] = Arg("g", NN(Named("Int")))]),
+     expect |-> {"InputFieldDefaultValueChange"}, silentOk |-> FALSE, breaking |-> TRUE],
+    \* edits of an OBJECT's own field that an interface it implements declares as well (the interface is untouched)
+    [kind |-> "add-optional-arg-impl", el |-> "r", owner |-> "A", new |-> WithType(s, TIdx(s, "A"), [s.types[TIdx(s, "A")] EXCEPT !.fields[1].args = <<Arg("r", Named("Int"))>>]),
+     expect |-> {"FieldArgumentAdded"}, silentOk |-> FALSE, breaking |-> FALSE],
+    [kind |-> "deprecate-impl-field", el |-> "id", owner |-> "A", new |-> WithType(s, TIdx(s, "A"), [s.types[TIdx(s, "A")] EXCEPT !.fields[1].dep = "old"]),
+     expect |-> {"FieldDeprecated"}, silentOk |-> FALSE, breaking |-> FALSE],
+    [kind |-> "strengthen-impl-field", el |-> "id", owner |-> "A", new |-> WithType(s, TIdx(s, "A"), [s.types[TIdx(s, "A")] EXCEPT !.fields[1].type = NN(Named("ID"))]),
+     expect |-> {"FieldChangedType"}, silentOk |-> TRUE, breaking |-> FALSE],
     [kind |-> "identity", el |-> "", owner |-> "", new |-> s, expect |-> {}, silentOk |-> TRUE, breaking |-> FALSE] }
 \* type names an edit touches: two edits are only combined when they touch different types
 Touch(x) == CASE x.kind \in {"add-interface", "remove-interface"} -> {x.el, "Node"}
